@@ -17,6 +17,24 @@ fn start_table<S: Src, const N: usize>(s: &mut S) -> Option<(Table, Ents)> {
     if s.native() && s.below(10) == 0 {
         return Some((HashTable::new(), Vec::new()));
     }
+    if s.native() && N >= 2 * Group::WIDTH && s.below(5) == 0 {
+        // directed profile: a single element displaced beyond its first probe window, which holds
+        // nothing but tombstones (everything that once filled it has been removed)
+        let w = Group::WIDTH;
+        let mut st = St::<N> { kind: [K_EMPTY; N], val: [0; N] };
+        let h = s.below(N);
+        for_upto!(j, w, {
+            st.kind[(h + j) & (N - 1)] = K_DELETED;
+        });
+        let e = (h as u64) | (s.u64() & !0xFFu64);
+        let slot = (h + w + s.below(3)) & (N - 1);
+        // buckets between the end of the window and the element must not be EMPTY-before-element in
+        // the same window: place it at the first bucket of the second probe window
+        let slot = if slot == ((h + w) & (N - 1)) { slot } else { (h + w) & (N - 1) };
+        st.kind[slot] = K_FULL;
+        st.val[slot] = e;
+        return Some((mk_table(&st), ents_of(&st).into_iter().map(|e| (e.0, 0, e.2)).collect()));
+    }
     let st = draw_state::<S, N>(s, true)?;
     Some((mk_table(&st), ents_of(&st).into_iter().map(|e| (e.0, 0, e.2)).collect()))
 }
@@ -299,6 +317,11 @@ pub fn ob_table_get_many_mut<S: Src, const N: usize>(s: &mut S) -> Chk {
         }
         (ptrs, out)
     }));
+    if r.is_err() && !sloppy {
+        // with a lawful closure the call may panic only when two requests resolve to the same entry
+        let clash = (0..3).any(|i| (0..i).any(|j| ids[i] == ids[j] && count_id(&m, ids[i]) > 0));
+        ensure!(clash, "HashTable::get_many_mut panics only when two requests resolve to the same entry (equal hashes alone are not a conflict)");
+    }
     if let Ok((ptrs, out)) = r {
         let mut p2 = ptrs.clone();
         p2.sort();
